@@ -397,6 +397,18 @@ fn post_check(ctx: &mut StepCtx, w: &World, op: &Op, pre: &Pre, out: &Outcome) -
         "C10" | "C13" | "C14" => viols.extend(crate::histprops2::post_extra(ctx, w, op, pre, out)),
         _ => {}
     }
+    // the known C13 finding seen through the file monitors: duplicate() of a model that holds content which is not valid in the
+    // version of its own file drops that content and assigns the file sets of the copy to the wrong elements from there on
+    if ctx.prop == "C10" && !viols.is_empty() {
+        if let Op::Duplicate { m } = op {
+            let invalid_original = w.models.get(*m).is_some_and(|orig| orig.files().any(|f| !f.check_version_compatibility(f.version()).0.is_empty()));
+            if invalid_original {
+                for v in viols.iter_mut().filter(|v| v.rule.starts_with("files/")) {
+                    v.pred = format!("{}{}original-has-content-not-valid-in-the-version-of-its-file", v.pred, if v.pred.is_empty() { "" } else { "+" });
+                }
+            }
+        }
+    }
     viols
 }
 
@@ -594,11 +606,14 @@ pub fn run_case_with(prop: &str, seed: u64, case: u64, len: usize, rep: &mut Rep
             if !viols.is_empty() {
                 let after = format!("{:?}", op.kind());
                 let all_known = viols.iter().all(|v| is_known(prop, &format!("{prop}:{}:{}:after={after}", v.rule, v.pred)));
+                // a duplicate made from an original with content that is invalid for its own file has misplaced file sets: every
+                // later call on it would re-report the same known finding under another operation's name
+                let poisoned = viols.iter().any(|v| v.pred.contains("original-has-content-not-valid-in-the-version-of-its-file"));
                 for v in viols {
                     result.viols.push((v, after.clone()));
                 }
                 // the state after a known finding is still meaningful for most monitors: go on; otherwise stop here
-                if !all_known || result.viols.len() > 20 {
+                if !all_known || poisoned || result.viols.len() > 20 {
                     break;
                 }
             }
